@@ -100,6 +100,12 @@ def affixed(lang):
     out = []
     for w in base:
         out += [w + "-", "-" + w, w + "'", "'" + w, w + "\u2019", w + ".", w + ",", w + "--"]
+    # + every non-alphanumeric character written in a literal of the current source (srcmine.py), on a third of the words
+    import srcmine
+    extra = [c for c in srcmine.special_chars() if c not in "-'.,\u2019"]
+    for w in base[::3]:
+        for c in extra:
+            out += [w + c, c + w]
     return out
 
 
